@@ -1230,6 +1230,10 @@ def heap_scribble(icall):
         _LIBC = lib
     lib = _LIBC
     byte = SCRIBBLE_BYTES[(icall - 1) % len(SCRIBBLE_BYTES)]
+    try:
+        lib.mallopt(-6, 0xFF ^ byte)     # M_PERTURB: from now on every malloc'ed block is filled with `byte`
+    except Exception:
+        pass
     blocks = []
     for sz in SCRIBBLE_SIZES:
         ptr = lib.malloc(sz)
